@@ -3,6 +3,7 @@ import SluProofs.Lemmas.CxRat
 import SluProofs.Lemmas.LUSchedule
 import SluProofs.Lemmas.DfsTopo
 import SluProofs.Lemmas.Prune
+import SluProofs.Lemmas.ColDfs
 /-
 C02 — Factors reproduce the permuted matrix; pivoting bounds hold.
 
@@ -843,3 +844,138 @@ example (P : Params (Cx Rat) Rat) (hP : Legal P) (h : (luFactor P false).info = 
   luFactor_identity magLaws_cx P hP false h j hj i hi
 
 end Slu.LU
+
+/-! ## The iterative search of `[sdcz]column_dfs.c` IS the recursive search (array level)
+
+`Slu.ColDfs.columnDfs` (Slu/Model/ColDfs.lean) mirrors `[sdcz]column_dfs.c` statement by statement on
+the arrays `perm_r, lsub_col, segrep, repfnz, xprune, marker, parent, xplore, xsup, supno, lsub, xlsub`
+and is compared with the C routine entry by entry (family `coldfs`).  `wfIn` is the decidable
+well-formedness of the state the routine is handed (evaluated on every generated state by the driver).
+The graph read off the arrays: nodes = supernode representatives `< jcol`; `adjR s` = the
+representatives of the pivot columns `> s` of the rows of the pruned list `lsub[xlsub[s] .. xprune[s])`,
+in storage order; roots = representatives of the pivot columns of the pivoted rows of the column. -/
+namespace Slu.ColDfs
+open Slu Slu.LU List
+
+/-- **C02 (iterative = recursive search).** On every well-formed state, with the fuel `fuelBound`
+computed from the arrays (`(jcol+1) * (|lsub|+2)` transitions), the explicit-stack loop terminates and
+appends to `segrep` exactly the representatives, in exactly the order, that the recursive
+`dfsVisit`/`dfsList` of Slu/Model/Dfs.lean finishes — started from the accumulator that holds the
+representatives already visited on entry (`repfnz[s] != EMPTY`, e.g. by the panel search).  `nw` is the
+list of newly finished representatives, last finished first; `segrep[nseg_in .. nseg_out)` is its reverse;
+`segrep[0 .. nseg_in)` is untouched. -/
+theorem colDfs_eq_recursive (i : Input) (h : wfIn i = true) :
+    ∃ o nw, columnDfs i (fuelBound i) = some o ∧
+      nw ++ visited0 i.jcol i.repfnz =
+        dfsList (adjR i.env i.lsub) i.jcol.toNat ((rootCols i.env (colRows i.lsubCol)).map (repN i.env))
+          (visited0 i.jcol i.repfnz) ∧
+      o.nseg = i.nseg + nw.length ∧
+      slice o.segrep i.nseg o.nseg = nw.reverse.map Int.ofNat ∧
+      (∀ x, x < i.nseg → rd o.segrep x = rd i.segrep x) :=
+  columnDfs_eq_dfsList h
+
+/-- **C02 (no representative visited on entry).** `segrep[nseg_in .. nseg_out)` is the postorder
+`dfsPost` of the recursive search, i.e. its reverse is `snodeReps` — the list `luFactor_snode_dfs`
+builds its schedule from. -/
+theorem colDfs_eq_dfsPost (i : Input) (h : wfIn i = true) (hclean : visited0 i.jcol i.repfnz = []) :
+    ∃ o, columnDfs i (fuelBound i) = some o ∧
+      slice o.segrep i.nseg o.nseg =
+        (dfsPost i.jcol.toNat (adjR i.env i.lsub) ((rootCols i.env (colRows i.lsubCol)).map (repN i.env))).map Int.ofNat ∧
+      (slice o.segrep i.nseg o.nseg).reverse =
+        (snodeReps i.jcol.toNat (repN i.env) (adjSR i.env i.lsub) (rootCols i.env (colRows i.lsubCol))).map Int.ofNat := by
+  obtain ⟨o, nw, h1, h2, h3, h4, _⟩ := colDfs_eq_recursive i h
+  rw [hclean, append_nil] at h2
+  refine ⟨o, h1, ?_, ?_⟩
+  · rw [h4, h2]; rfl
+  · rw [h4, h2, ← map_reverse, reverse_reverse, snodeReps, ← adjR_eq_map]; rfl
+
+/-- **C02 (what `luFactor_snode_dfs` / `luFactor_pruned_dfs` consume).** The graph read off a
+well-formed state satisfies the hypotheses of `dfsPost_nodup`, `mem_dfsPost_iff`, `dfsPost_topo`
+(successors are larger and below `jcol`; roots below `jcol`); hence what the C loop appends to `segrep`
+has no duplicates, lists exactly the representatives reachable from the column, and places every
+successor before its node (reverse = topological order). -/
+theorem colDfs_segrep_topo (i : Input) (h : wfIn i = true) (hclean : visited0 i.jcol i.repfnz = []) :
+    ∃ o P, columnDfs i (fuelBound i) = some o ∧ slice o.segrep i.nseg o.nseg = P.map Int.ofNat ∧
+      P.Nodup ∧
+      (∀ x, x ∈ P ↔ ∃ s ∈ (rootCols i.env (colRows i.lsubCol)).map (repN i.env), Reach (adjR i.env i.lsub) s x) ∧
+      (∀ k ∈ P, ∀ r ∈ adjR i.env i.lsub k, [r, k] <+ P) ∧
+      (∀ k, ∀ r ∈ adjR i.env i.lsub k, k < r ∧ r < i.jcol.toNat) := by
+  obtain ⟨o, h1, h2, _⟩ := colDfs_eq_dfsPost i h hclean
+  have hE := wfIn_env h
+  have hadj := adjR_lt hE
+  have hroots := rootCols_lt hE (wfIn_unpack h).2.2.2.2.2.2.2
+  exact ⟨o, _, h1, h2, dfsPost_nodup hadj _ hroots, mem_dfsPost_iff hadj _ hroots, dfsPost_topo hadj _ hroots, hadj⟩
+
+/-! ### example: 8 rows, columns 0..5 factored (diagonal pivots), supernodes {0} {1,2} {3} {4} {5}, jcol = 6
+
+pruned lists: rep 0: rows 0 2 4 | 6 (row 6 cut off by `xprune[0] = 3`), rep 2: 2 5 7, rep 3: 3 7,
+rep 4: 4 5 6, rep 5: 5 6 7.  Column 6 has rows 0 and 7.  The search goes 0 → 2 → 5 (appends rows 6, 7),
+back in 2 finds row 7 already marked, back in 0 goes to 4 (finds 5 already visited, row 6 already marked);
+the second nonzero (row 7) is already marked.  `segrep` receives 5 2 4 0. -/
+def exIn : Input :=
+  { m := 8, jcol := 6, maxsuper := 4,
+    perm_r := #[0, 1, 2, 3, 4, 5, -1, -1], nseg := 0,
+    lsubCol := #[0, 7, -1, 3, 3, 3, 3, 3],
+    segrep := #[-7, -7, -7, -7, -7, -7, -7, -7],
+    repfnz := #[-1, -1, -1, -1, -1, -1, -1, -1],
+    xprune := #[3, 99999, 11, 13, 16, 19, 0],
+    marker := #[0, 0, 0, 0, 0, 0, 0, 0, 1, 1, 1, 1, 1, 1, 1, 1, -1, -1, -1, -1, -1, 5, 5, 5],
+    parent := #[4, 4, 4, 4, 4, 4, 4, 4], xplore := #[9, 9, 9, 9, 9, 9, 9, 9],
+    xsup := #[0, 1, 3, 4, 5, 6, -7, -7], supno := #[0, 1, 1, 2, 3, 4, 4, -7],
+    lsub := #[0, 2, 4, 6,  1, 2, 5, 7,  2, 5, 7,  3, 7,  4, 5, 6,  5, 6, 7,  -5, -5, -5],
+    xlsub := #[0, 4, 8, 11, 13, 16, 19, -7] }
+
+example : wfIn exIn = true := by decide +kernel
+example : visited0 exIn.jcol exIn.repfnz = [] := by decide +kernel
+example : (List.range 6).map (adjR exIn.env exIn.lsub) = [[2, 4], [], [5], [], [5], []] := by decide +kernel
+example : (rootCols exIn.env (colRows exIn.lsubCol)).map (repN exIn.env) = [0] := by decide +kernel
+example : dfsPost 6 (adjR exIn.env exIn.lsub) [0] = [5, 2, 4, 0] := by decide +kernel
+example : (columnDfs exIn (fuelBound exIn)).map (fun o => (o.nseg, slice o.segrep 0 o.nseg, slice o.repfnz 0 6)) =
+    some (4, [5, 2, 4, 0], [0, -1, 2, -1, 4, 5]) := by decide +kernel
+-- rows 6, 7 appended once each; same row set as column 5 minus its pivot: jcol joins the supernode of column 5
+example : (columnDfs exIn (fuelBound exIn)).map (fun o => (slice o.lsub 19 22, slice o.supno 5 7, slice o.xlsub 6 8)) =
+    some ([6, 7, -5], [4, 4], [19, 21]) := by decide +kernel
+example := colDfs_segrep_topo exIn (by decide +kernel) (by decide +kernel)
+
+/-- **C02 (rows appended to `lsub` = the marked unpivoted rows, array level).** On every well-formed state the search part of
+`[sdcz]column_dfs` (model `search`, before the supernode-boundary part may move the list) leaves
+`lsub[0 .. xlsub[jcol])` untouched and appends `lsub[xlsub[jcol] .. nextl)`: pairwise distinct rows, and a
+row is in that list IF AND ONLY IF it is in range, unpivoted (`perm_r[r] = EMPTY`) and carries this column's
+mark on exit (`marker2[r] = jcol`); the list fits in the capacity `wfIn` asks for (one slot per unpivoted
+row).  This is the array-level refinement of C03's `marker_filter_nodup`.
+
+The characterisation of the marked rows as the REACHABLE ones is `colDfs_lsub_nodup` below. -/
+theorem colDfs_lsub_marked (i : Input) (h : wfIn i = true) :
+    ∃ st', search i.env (fuelBound i) (colRows i.lsubCol) i.st0 = some st' ∧
+      (slice st'.lsub (rd i.xlsub i.jcol) st'.nextl).Nodup ∧
+      (∀ r, r ∈ slice st'.lsub (rd i.xlsub i.jcol) st'.nextl ↔
+        (0 ≤ r ∧ r < i.m ∧ rd i.perm_r r = EMPTY ∧ mk2 i.env st' r = i.jcol)) ∧
+      (∀ x, 0 ≤ x → x < rd i.xlsub i.jcol → rd st'.lsub x = rd i.lsub x) ∧
+      rd i.xlsub i.jcol ≤ st'.nextl ∧ st'.nextl ≤ st'.lsub.size :=
+  search_lsub h
+
+example : (search exIn.env (fuelBound exIn) (colRows exIn.lsubCol) exIn.st0).map
+    (fun st => (slice st.lsub 19 st.nextl, slice st.marker 16 24)) = some ([6, 7], [6, -1, 6, -1, 6, 6, 6, 6]) := by
+  decide +kernel
+example := colDfs_lsub_marked exIn (by decide +kernel)
+
+/-- **C02 (rows appended to `lsub` = the unpivoted reachable rows, array level).** On every well-formed
+state (any set of representatives visited on entry) the search part of `[sdcz]column_dfs` appends to `lsub`,
+each ONCE, exactly the unpivoted rows that occur among the column's own rows or in the pruned list
+`lsub[xlsub[t] .. xprune[t])` of a representative `t` the search finished — `nw`, the same list whose reverse
+is appended to `segrep` (`colDfs_eq_recursive`): with no representative visited on entry these are the
+representatives reachable from the column (`colDfs_segrep_topo`), so the list is the set of unpivoted rows
+reachable from the column, without duplicates. -/
+theorem colDfs_lsub_nodup (i : Input) (h : wfIn i = true) :
+    ∃ st' nw, search i.env (fuelBound i) (colRows i.lsubCol) i.st0 = some st' ∧
+      nw ++ visited0 i.jcol i.repfnz =
+        dfsList (adjR i.env i.lsub) i.jcol.toNat ((rootCols i.env (colRows i.lsubCol)).map (repN i.env)) (visited0 i.jcol i.repfnz) ∧
+      (slice st'.lsub (rd i.xlsub i.jcol) st'.nextl).Nodup ∧
+      ∀ r, r ∈ slice st'.lsub (rd i.xlsub i.jcol) st'.nextl ↔
+        (0 ≤ r ∧ r < i.m ∧ rd i.perm_r r = EMPTY ∧
+          (r ∈ colRows i.lsubCol ∨ ∃ t ∈ nw, r ∈ adjRows i.env i.lsub ((t : Nat) : Int))) :=
+  search_lsub_reach h
+
+example := colDfs_lsub_nodup exIn (by decide +kernel)
+
+end Slu.ColDfs
